@@ -519,6 +519,38 @@ def is_free(op):
     return False
 
 
+def alias_probe(data, where):
+    """the three bookkeeping lists of PassData (and of a copy) must be pairwise distinct objects,
+    and mutating one in place must not change the others.  Returns a list of problems."""
+    bad = []
+    names = ('placement', 'initial_mapping', 'final_mapping')
+
+    def probe(d, tag):
+        lists = [getattr(d, nm) for nm in names]
+        for i in range(3):
+            for j in range(i + 1, 3):
+                if lists[i] is lists[j]:
+                    bad.append('%s%s: %s and %s are the same list object' % (where, tag, names[i], names[j]))
+    probe(data, '')
+    try:
+        cp = data.copy()
+    except Exception as e:  # noqa
+        return bad + ['%s: data.copy() raised %s' % (where, type(e).__name__)]
+    probe(cp, ' (copy)')
+    # in-place mutation of one list of the COPY (the real data is left alone)
+    for i, nm in enumerate(names):
+        before = [list(getattr(cp, x)) for x in names]
+        lst = getattr(cp, nm)
+        lst.append(-7)
+        for j, other in enumerate(names):
+            if j != i and list(getattr(cp, other)) != before[j]:
+                bad.append('%s (copy): appending to %s in place changed %s' % (where, nm, other))
+        lst.pop()
+    if [list(getattr(data, x)) for x in names] != [list(getattr(data, x)) for x in names]:
+        bad.append('%s: unstable' % where)
+    return sorted(set(bad))
+
+
 def run_impl(case):
     """Run [SetModel, placement, layout, routing, ApplyPlacement] directly.
     Returns a dict of observations (no bqskit objects that cannot be compared)."""
@@ -575,28 +607,71 @@ def run_impl(case):
         # adjacency in the implementation's own iteration order (GreedyPlacement ties)
         return [[int(x) for x in cg_.get_neighbors_of(q)] for q in range(cg_.num_qudits)]
 
-    passes = [('setmodel', SetModelPass(model), adj_of_cg(cgm))]
-    pl = case['placer']
-    if pl == 'T':
-        passes.append(('placement', TrivialPlacementPass(), None))
-    elif pl == 'G':
-        passes.append(('placement', GreedyPlacementPass(), None))
-    elif pl == 'S':
-        passes.append(('placement', RecStatic(), None))
-    if case['layout_passes']:
-        passes.append(('layout', recording(GeneralizedSabreLayoutPass, log, adversary)(case['layout_passes'], **kw), None))
-    passes.append(('routing', recording(GeneralizedSabreRoutingPass, log, adversary)(**kw), None))
-    edges_final = case['edges']
-    if case.get('variant') == 'double':
-        # route again on a second machine graph: final_mapping is then composed with a non-identity
-        cg2 = CouplingGraph([tuple(e) for e in case['edges2']], m)
-        model2 = MachineModel(m, cg2, radixes=[radix] * m)
-        passes.append(('setmodel2', SetModelPass(model2), adj_of_cg(cg2)))
-        passes.append(('routing2', recording(GeneralizedSabreRoutingPass, log, adversary)(**kw), None))
-        edges_final = case['edges2']
-    passes.append(('apply', ApplyPlacement(), None))
+    class DirectModel:
+        """`data.model = model` (compile(..., data={'machine_model': m}) / circuit.perform(p, {...})):
+        the model is handed over through PassData, no SetModelPass, the placement is not touched"""
+
+        def __init__(self, mdl):
+            self.mdl = mdl
+
+        async def run(self, circuit, data):
+            data.model = self.mdl
+
+    def placer_pass(pl):
+        return {'T': TrivialPlacementPass, 'G': GreedyPlacementPass, 'S': RecStatic}[pl]()
+
+    def layout_pass():
+        return recording(GeneralizedSabreLayoutPass, log, adversary)(max(1, case['layout_passes']), **kw)
+
+    def routing_pass():
+        return recording(GeneralizedSabreRoutingPass, log, adversary)(**kw)
+
+    graphs = [case['edges']] + ([case['edges2']] if case.get('edges2') else [])
+
+    def model_of(i):
+        cg_ = CouplingGraph([tuple(e) for e in graphs[i]], m)
+        return MachineModel(m, cg_, radixes=[radix] * m), adj_of_cg(cg_)
+
+    if case.get('variant') == 'seq':
+        toks = case['seq']
+    else:
+        toks = ['SM0']
+        if case['placer'] in 'TGS':
+            toks.append('PL')
+        if case['layout_passes']:
+            toks.append('LAY')
+        toks.append('RT')
+        if case.get('variant') == 'double':
+            toks += ['SM1', 'RT']
+        toks.append('AP')
+    passes, seen, edges_final = [], {}, case['edges']
+
+    def uname(base):
+        seen[base] = seen.get(base, 0) + 1
+        return base if seen[base] == 1 else '%s%d' % (base, seen[base])
+    for tk in toks:
+        if tk in ('SM0', 'SM1'):
+            mdl, madj = model_of(int(tk[2]))
+            passes.append((uname('setmodel'), SetModelPass(mdl), madj))
+            edges_final = graphs[int(tk[2])]
+        elif tk in ('DM0', 'DM1'):
+            mdl, madj = model_of(int(tk[2]))
+            passes.append((uname('directmodel'), DirectModel(mdl), madj))
+            edges_final = graphs[int(tk[2])]
+        elif tk == 'PL':
+            passes.append((uname('placement'), placer_pass(case['placer']), None))
+        elif tk == 'LAY':
+            passes.append((uname('layout'), layout_pass(), None))
+        elif tk == 'RT':
+            passes.append((uname('routing'), routing_pass(), None))
+        elif tk == 'AP':
+            passes.append((uname('apply'), ApplyPlacement(), None))
+        else:
+            raise ValueError(tk)
+    obs['toks'] = toks
     obs['edges_final'] = edges_final
     obs['mach_adj'] = adj_of_cg(cgm)
+    obs['alias'] = alias_probe(data, 'PassData(circuit)')
 
     def snap():
         return dict(placement=list(data.placement), imap=list(data.initial_mapping), fmap=list(data.final_mapping))
@@ -608,7 +683,7 @@ def run_impl(case):
             if madj is not None:
                 mach = madj
             info['mach'] = mach if madj is None else madj
-            if name.startswith('routing') or name == 'apply':
+            if name.startswith('routing') or name.startswith('apply'):
                 info['circ_before'] = [op for _, op in circuit.operations_with_cycles()]
                 info['nq_before'] = circuit.num_qudits
             try:
@@ -623,12 +698,28 @@ def run_impl(case):
                 obs['error_info'] = info
                 return
             info['log'] = log[info['nlog']:]
-            if name.startswith('routing') or name == 'apply':
+            if name.startswith('routing') or name.startswith('apply'):
                 info['tl_after'] = timelines(circuit)
+            if name.startswith('routing'):
+                obs['routing_placement'] = list(data.placement)
+                obs['routing_edges'] = edges_now[0]
+            obs['alias'] += alias_probe(data, name)
             obs['stages'].append((name, snap()))
             obs['infos'].append((name, info))
     obs['infos'] = []
+    edges_now = [None]
+    # the machine graph in force at each pass: follow the tokens
+    cur = None
+    force = {}
+    for (name, _p, _m), tk in zip(passes, toks):
+        if tk[:2] in ('SM', 'DM'):
+            cur = graphs[int(tk[2])]
+        force[name] = cur
+    obs['force'] = force
     asyncio.run(go())
+    if 'routing_placement' in obs:
+        last_rt = [nm for nm, _ in obs['stages'] if nm.startswith('routing')][-1]
+        obs['routing_edges'] = force[last_rt]
     obs['log'] = log
     obs['static'] = static_found
     obs['original'] = original
@@ -670,9 +761,9 @@ def stage_line(case, obs, name, info):
     g, pdb = fmt(info['mach']), pd_tok(info['before'])
     if name.startswith('setmodel'):
         return 'sm %s %d %s' % (g, case['n'], pdb)
-    if name == 'placement':
+    if name.startswith('placement'):
         return 'plc %s %s %d %s' % (g, pdb, case['n'], placer_tok(case, obs))
-    if name == 'layout':
+    if name.startswith('layout'):
         recs = info.get('log', log_tail(obs, info))
         c = circ_tokens(recs[0].ops) if recs else circ_tokens([op for _, op in obs['original'].operations_with_cycles()])
         return 'lay %s %s %s %d %s' % (g, pdb, fmt(c), case['n'], ltr_tok(recs))
@@ -680,9 +771,11 @@ def stage_line(case, obs, name, info):
         recs = info.get('log', log_tail(obs, info))
         return 'rt %s %s %s %d %s' % (g, pdb, fmt(circ_tokens(info['circ_before'])), info['nq_before'],
                                       fmt(recs[0].steps) if recs else '[]')
-    if name == 'apply':
+    if name.startswith('apply'):
         out = [['G', i, list(op.location)] for i, op in enumerate(info['circ_before'])]
         return 'ap %s %s %s' % (g, pdb, fmt(out))
+    if name.startswith('directmodel'):
+        return None
     raise ValueError(name)
 
 
@@ -701,6 +794,8 @@ def model_lines(case, obs):
     stage_infos = list(obs['infos'])
     if obs['error'] is not None:
         stage_infos.append((obs['error'][0], obs['error_info']))
+    obs['stage_infos'] = stage_infos
+    stage_infos = [(nm, inf) for nm, inf in stage_infos if not nm.startswith('directmodel')]
     obs['stage_infos'] = stage_infos
     for name, info in stage_infos:
         lines.append(stage_line(case, obs, name, info))
@@ -815,7 +910,7 @@ def compare_stages(case, obs, answers):
             continue
         iv = ist[name]
         exp = [iv['placement'], iv['imap'], iv['fmap']]
-        if name.startswith('routing') or name == 'apply':
+        if name.startswith('routing') or name.startswith('apply'):
             out, pd = ans
             gates = [op.gate for op in info['circ_before']]
             nq_after = len(info['tl_after'])
@@ -880,34 +975,52 @@ def compare_pipe(case, obs, ans):
 # property oracle on the implementation (independent of the model)
 # --------------------------------------------------------------------------
 def oracle(case, obs, rng):
-    """returns list of (symptom, expected, observed)"""
+    """returns list of (symptom, expected, observed).  Works for every pass sequence: the mappings
+    are read against the CURRENT circuit (num_qudits wires), its wire w is physical qudit
+    placement[w] (identity after ApplyPlacement)."""
     from bqskit.ir.gates import BarrierPlaceholder
     bad = []
-    if obs['error'] is not None:
+    for a in obs.get('alias', []):
+        bad.append(('aliasing', 'placement / initial_mapping / final_mapping are three independent lists', a))
+    if bad or obs['error'] is not None:
         return bad
-    n, m, radix = case['n'], case['m'], case['radix']
-    edges = {tuple(sorted(e)) for e in obs['edges_final']}
+    n, m_mach, radix = case['n'], case['m'], case['radix']
     final = obs['final']
-    st = dict(obs['stages'])
-    im, fm = st['apply']['imap'], st['apply']['fmap']
-    # 1. coupling
-    for cyc, op in final.operations_with_cycles():
-        if isinstance(op.gate, BarrierPlaceholder) or op.num_qudits == 1 or is_free(op):
-            continue
-        loc = list(op.location)
-        if op.num_qudits == 2:
-            if tuple(sorted(loc)) not in edges:
-                bad.append(('uncoupled', 'edge of the machine', '%s at cycle %d' % (op, cyc)))
-        elif not connected(m, edges, loc):
-            bad.append(('uncoupled', 'connected induced subgraph', '%s at cycle %d' % (op, cyc)))
+    m = final.num_qudits                       # wires of the current circuit
+    last = obs['stages'][-1][1]
+    im, fm, plc_now = last['imap'], last['fmap'], last['placement']
+    toks = obs['toks']
+    names = [nm for nm, _ in obs['stages']]
+    # is the circuit expected to respect the coupling?  yes iff a routing ran after the last
+    # change of model / placement / layout
+    idx_rt = max([i for i, t in enumerate(toks) if t == 'RT'], default=-1)
+    idx_chg = max([i for i, t in enumerate(toks) if t[:2] in ('SM', 'DM') or t in ('PL', 'LAY')], default=-1)
+    routed = idx_rt > idx_chg
+    edges = {tuple(sorted(e)) for e in (obs.get('routing_edges') or obs['edges_final'])}
+    # 1. coupling (physical qudit of wire w = placement[w])
+    if routed:
+        for cyc, op in final.operations_with_cycles():
+            if isinstance(op.gate, BarrierPlaceholder) or op.num_qudits == 1 or is_free(op):
+                continue
+            try:
+                loc = [plc_now[q] for q in op.location]
+            except IndexError:
+                bad.append(('placement', 'placement covers every wire of the circuit', plc_now))
+                break
+            if op.num_qudits == 2:
+                if tuple(sorted(loc)) not in edges:
+                    bad.append(('uncoupled', 'edge of the machine', '%s at cycle %d (physical %s)' % (op, cyc, loc)))
+            elif not connected(m_mach, edges, loc):
+                bad.append(('uncoupled', 'connected induced subgraph', '%s at cycle %d (physical %s)' % (op, cyc, loc)))
     # 2. mappings
     for name, mp_ in (('initial_mapping', im), ('final_mapping', fm)):
         if len(mp_) != n or len(set(mp_)) != n or not all(0 <= x < m for x in mp_):
             bad.append(('mapping', '%s injective into range(%d), length %d' % (name, m, n), mp_))
-    # 3. placement connected (the placement in force during routing)
-    plc = st['routing2' if 'routing2' in st else 'routing']['placement']
-    if len(set(plc)) != n or not all(0 <= x < m for x in plc) or not connected(m, edges, plc):
-        bad.append(('placement', 'connected duplicate-free set of physical qudits', plc))
+    # 3. placement connected (the placement in force during the last routing)
+    if 'routing_placement' in obs:
+        plc = obs['routing_placement']
+        if len(set(plc)) != len(plc) or not all(0 <= x < m_mach for x in plc) or not connected(m_mach, edges, plc):
+            bad.append(('placement', 'connected duplicate-free set of physical qudits', plc))
     # 4. only swaps added
     def counts(c):
         d = {}
@@ -1175,8 +1288,16 @@ def run_pam(case):
                 return arng.random()
     prng = random.Random(case.get('perm_seed', 0))
     madj = [[int(x) for x in cgm.get_neighbors_of(q)] for q in range(m)]
-    passes = [('setmodel', SetModelPass(model))]
-    if case['placer'] == 'G':
+    class DirectModel:
+        def __init__(self, mdl):
+            self.mdl = mdl
+
+        async def run(self, circuit, data):
+            data.model = self.mdl
+    passes = [('directmodel', DirectModel(model))] if case.get('direct_model') else [('setmodel', SetModelPass(model))]
+    if case.get('direct_model'):
+        pass
+    elif case['placer'] == 'G':
         passes.append(('placement', GreedyPlacementPass()))
     elif case['placer'] == 'T':
         passes.append(('placement', TrivialPlacementPass()))
@@ -1188,6 +1309,7 @@ def run_pam(case):
     passes.append(('prouting', recording_pam(PAMRoutingPass, log, adversary, score_adv)(case['gcw'], **kw)))
     passes.append(('apply', ApplyPlacement()))
     obs = dict(stages=[], infos=[], error=None, kind='pam', mach_adj=madj, edges_final=case['edges'])
+    obs['alias'] = alias_probe(data, 'PassData(circuit)')
 
     def snap():
         return dict(placement=list(data.placement), imap=list(data.initial_mapping), fmap=list(data.final_mapping))
@@ -1215,6 +1337,7 @@ def run_pam(case):
                 obs['error_info'] = info
                 return
             info['log'] = log[info['nlog']:]
+            obs['alias'] += alias_probe(data, name)
             if name in ('prouting', 'apply', 'apply0'):
                 info['tl_after'] = timelines(circuit)
             obs['stages'].append((name, snap()))
@@ -1272,6 +1395,7 @@ def pam_model_lines(case, obs):
     stage_infos = list(obs['infos'])
     if obs['error'] is not None and obs['error'][0] != 'embed':
         stage_infos.append((obs['error'][0], obs['error_info']))
+    stage_infos = [(nm, inf) for nm, inf in stage_infos if nm != 'directmodel']
     obs['stage_infos'] = stage_infos
     for name, info in stage_infos:
         g, pdb = fmt(info['mach']), pd_tok(info['before'])
@@ -1411,7 +1535,9 @@ def pam_oracle(case, obs, rng):
     """property oracle for the PAM pipelines, independent of the model: blocks are unfolded; the
     inner two-qudit gates must lie on machine edges, mappings injective, exact action on basis states"""
     bad = []
-    if obs['error'] is not None:
+    for a in obs.get('alias', []):
+        bad.append(('aliasing', 'placement / initial_mapping / final_mapping are three independent lists', a))
+    if bad or obs['error'] is not None:
         return bad
     n, m, radix = case['n'], case['m'], case['radix']
     edges = {tuple(sorted(e)) for e in case['edges']}
@@ -1495,7 +1621,8 @@ def gen_pam_case(rng):
     return dict(kind='pam', n=n, m=m, radix=2, edges=[list(e) for e in edges], ops=blocks,
                 mode=rng.choice(['out', 'in', 'both', 'none']), seq=rng.choice(['A', 'B']),
                 placer=rng.choice(['N', 'G', 'T']), layout_passes=rng.choice([0, 1, 2]),
-                gcw=rng.choice([0.0, 0.1, 0.3, 2.0]), params=prm, perm_seed=rng.randrange(1 << 20), malformed=None)
+                gcw=rng.choice([0.0, 0.1, 0.3, 2.0]), params=prm, perm_seed=rng.randrange(1 << 20), malformed=None,
+                direct_model=rng.random() < 0.3)
 
 
 def finish_pam(case, obs, lines, outs):
@@ -1601,6 +1728,22 @@ def gen_cases(ctx):
         c['variant'] = 'double'
         c['edges2'] = [list(e) for e in prefix_connected_graph(rng, m, n, rng.choice([0.0, 0.1]))]
         cases.append(c)
+    # free pass sequences: model handed over through PassData (no SetModelPass / placement pass), layout twice,
+    # layout-only, routing-only, re-routing after the model changed
+    seqs = [['DM0', 'LAY', 'RT', 'AP'], ['DM0', 'LAY', 'RT', 'AP'], ['DM0', 'RT', 'AP'], ['DM0', 'LAY'], ['DM0', 'RT'],
+            ['SM0', 'LAY'], ['SM0', 'RT'], ['SM0', 'PL', 'LAY', 'LAY', 'RT', 'AP'], ['DM0', 'LAY', 'LAY', 'RT', 'AP'],
+            ['SM0', 'PL', 'LAY', 'RT', 'DM1', 'RT', 'AP'], ['DM0', 'LAY', 'RT', 'DM1', 'RT', 'AP'],
+            ['DM0', 'LAY', 'RT', 'SM1', 'LAY', 'RT', 'AP'], ['DM0', 'LAY', 'RT', 'AP', 'LAY', 'RT', 'AP']]
+    for _ in range(ctx.n(80, 900)):
+        full = rng.random() < 0.6
+        m = rng.randint(3, 7)
+        n = m if full else rng.randint(2, m)
+        es = prefix_connected_graph(rng, m, n, rng.choice([0.0, 0.0, 0.15]))
+        c = make_case(rng, n, m, es, nops=rng.randint(3, 14), placer=rng.choice(['G', 'T']), layout=rng.choice([1, 1, 2]))
+        c['variant'] = 'seq'
+        c['seq'] = rng.choice(seqs)
+        c['edges2'] = [list(e) for e in prefix_connected_graph(rng, m, n, rng.choice([0.0, 0.15]))]
+        cases.append(c)
     # permutation-aware mapping (PAM) with exact pre-synthesised triples
     for _ in range(ctx.n(90, 1500)):
         cases.append(gen_pam_case(rng))
@@ -1654,9 +1797,12 @@ def finish(case, obs, lines, outs):
     st['swaps_emitted'] = sum(1 for r in obs['log'] if r.modify for s in r.steps if s[0] in 'SU')
     if obs['error'] is None:
         stg = dict(obs['stages'])
-        st['placement_nonid'] = stg['routing']['placement'] != list(range(case['n']))
+        lastpd = obs['stages'][-1][1]
+        rp = obs.get('routing_placement', lastpd['placement'])
+        st['placement_nonid'] = rp != list(range(len(rp)))
         st['double'] = 'routing2' in stg
-        st['fmap_ne_imap'] = stg['apply']['imap'] != stg['apply']['fmap']
+        st['fmap_ne_imap'] = lastpd['imap'] != lastpd['fmap']
+        st['seq_variant'] = case.get('variant') == 'seq'
     js = lambda x: json.loads(json.dumps(x, default=str))  # noqa
     res['diffs'] = [(w, js(e), js(o)) for w, e, o in res['diffs']]
     res['oracle'] = [(w, js(e), js(o)) for w, e, o in res['oracle']]
@@ -1867,6 +2013,8 @@ def run(ctx: vf.Ctx):
             ctx.count('qutrit')
         if case.get('variant') == 'double':
             ctx.count('double_routing')
+        if case.get('variant') == 'seq':
+            ctx.count('seq:' + '-'.join(case['seq']))
         if case.get('kind') == 'pam':
             ctx.count('pam:seq=%s:mode=%s' % (case['seq'], case['mode']))
         if res['error'] is not None:
